@@ -98,7 +98,7 @@ class Check(PropCheck):
             "element's style, setAttribute/removeAttribute('style'), attributes['style']=/del) over 6 properties (3 single-word, 3 "
             'camelCase/dash pairs), the values {block, 5px, bold, red, "", left} and the 7 whole-style strings of the property: '
             'exhaustive to length 1 over all 200 writes, length 2 over a reduced alphabet of 45 writes and length 3 over 12 (quick) / '
-            'length 2 over all writes x reduced and length 3 over 45 (thorough); seeded random histories up to 25 items with '
+            'length 2 over all writes x reduced and length 3 over 23 (thorough); seeded random histories up to 25 items with '
             'class/attribute noise and mid-history reads; elements direct, parsed, cloned, copied, unpickled; every view group read '
             'on a fresh element per prefix. Non-trivial: the history writes the style through at least two different paths or '
             'starts from a non-empty style.')
@@ -154,7 +154,7 @@ class Check(PropCheck):
                 for b in reduced:
                     yield self.mk([a, b])
                     yield self.mk([b, a])
-            for h in itertools.product(reduced, repeat=3):
+            for h in itertools.product(reduced[::2], repeat=3):
                 yield self.mk(h)
         else:
             for a in reduced:
